@@ -739,6 +739,7 @@ Section TallyQ.
       unfold min_ok in Hmn. unfold max_ok in Hmx.
       destruct (tmin s) as [| | | mn] eqn:Emn; try contradiction.
       destruct (tmax s) as [| | | mx] eqn:Emx; try contradiction.
+      assert (Hh : a / 2 == a * (1 # 2)) by field.
       exists mn, mx. repeat split; try reflexivity; try apply Hmn; try apply Hmx.
       - intros Z. unfold g_confidence_interval, ci_head. cbn [zero ofZ NumQ isnan sub].
         rewrite (alpha_ok a A B).
@@ -746,11 +747,11 @@ Section TallyQ.
         destruct (proj2 stdev_u_spec H) as [sd [-> _]].
         change (inject_Z 2) with 2. change (inject_Z 1) with 1.
         rewrite pdiv_val by lra. cbn [leb NumQ].
-        assert (L : Qle_bool 1 (1 - a / 2) = true) by (apply Qle_bool_iff; rewrite Z; lra).
+        assert (L : Qle_bool 1 (1 - a / 2) = true) by (apply Qle_bool_iff; rewrite Hh, Z; lra).
         rewrite L, Emn, Emx. reflexivity.
       - intros P.
-        assert (P0 : 0 < 1 - a / 2) by lra.
-        assert (P1 : 1 - a / 2 < 1) by lra.
+        assert (P0 : 0 < 1 - a / 2) by (rewrite Hh; lra).
+        assert (P1 : 1 - a / 2 < 1) by (rewrite Hh; lra).
         destruct (icdf_total _ P0 P1) as [z Ez].
         pose proof (nQ_ge xs 2 H) as G. change (inject_Z (Z.of_nat 2)) with 2 in G.
         pose proof (samvar_nonneg H) as SV.
@@ -763,7 +764,7 @@ Section TallyQ.
         change (inject_Z 2) with 2. change (inject_Z 1) with 1.
         rewrite pdiv_val by lra. cbn [leb NumQ].
         assert (L : Qle_bool 1 (1 - a / 2) = false).
-        { destruct (Qle_bool 1 (1 - a / 2)) eqn:E; [apply Qle_bool_iff in E; lra | reflexivity]. }
+        { destruct (Qle_bool 1 (1 - a / 2)) eqn:E; [apply Qle_bool_iff in E; rewrite Hh in E; lra | reflexivity]. }
         rewrite L. unfold ci_tail. cbn [ofZ NumQ mul sub add]. rewrite Ez.
         destruct (proj2 variance_u_spec H) as [v [-> Ev]].
         rewrite nQ_tn. rewrite pdiv_val by lra.
